@@ -257,7 +257,7 @@ PAYLOADS_QUICK = [b"", b"\x00", b"\x7e", b"\x42", bytes(SPEC_RESERVED) * 2, byte
                   bytes(range(129)), bytes([0x11] * 200)]
 
 
-@rule("R03.5", ["C03", "C01"], "T-FUN", floor=400)
+@rule("R03.5", ["C03", "C01", "C04", "C02"], "T-FUN", floor=400)
 def r03_5(ctx):
     """Control-byte packing and its inverse, per class, against an independently written encoder: DATA for all
     8x2x8 field values and payload lengths up to 200 (randomised with the LFSR sequence, CRC-CCITT seed FFFF
@@ -391,7 +391,7 @@ def r03_6(ctx):
                             func=m, trace=p.trace())
 
 
-@rule("R03.7", ["C03", "C01"], "T-FUN", floor=4)
+@rule("R03.7", ["C03", "C01", "C04", "C02"], "T-FUN", floor=4)
 def r03_7(ctx):
     """Randomisation: PSEUDO_RANDOM_DATA_SEQUENCE is the LFSR sequence seed 0x42 / tap 0xB8 of length >= 256 (>=
     the asserted payload bound); _randomize XORs position-wise from index 0 and is an involution."""
